@@ -34,3 +34,28 @@ Definition packer_with_writer (enc : bytes -> bytes) (hash : bytes -> id) (clock
   | Err => Err
   | Ok packs => Ok (writer_run hash clock packs)
   end.
+
+(* ---- with a failing upload ----------------------------------------------------------------
+   `index_after_write` is the order found in the source (Extracted.WRITER_INDEXES_AFTER_WRITE):
+   true  = process: write_bytes, then (pipeline) indexer.add — a failed upload registers nothing;
+   false = indexer.add before write_bytes — a failed upload leaves the pack registered.
+   The run stops at the first failing upload (`fail_at` = position of the rejected pack). *)
+Fixpoint writer_go_f (index_after_write : bool) (hash : bytes -> id) (clock : nat -> Z) (k : nat)
+         (st : wstate) (packs : list (bytes * list iblob)) (fail_at : option nat) : wstate :=
+  match packs with
+  | [] => st
+  | pk :: r =>
+    let pid := hash (fst pk) in
+    let w := mkwp pid (snd pk) (Some (clock k)) None in
+    let fails := match fail_at with Some n => Nat.eqb n k | None => false end in
+    if fails
+    then (if index_after_write then st else (fst st, snd st ++ [w]))
+    else writer_go_f index_after_write hash clock (S k) (fst st ++ [(pid, fst pk)], snd st ++ [w]) r fail_at
+  end.
+
+Definition writer_run_f iaw hash clock packs fail_at : wstate :=
+  writer_go_f iaw hash clock 0 ([], []) packs fail_at.
+
+(* the writer as the source has it *)
+Definition writer_run_src hash clock packs fail_at : wstate :=
+  writer_run_f WRITER_INDEXES_AFTER_WRITE hash clock packs fail_at.
